@@ -117,6 +117,7 @@ def w_state(n):
 def wtype(coeff, little_endian):
     """sum_j c_j |x_j> with wt(x_j)=1, c normalised. little_endian: c_j sits on basis index 2^j, else on 2^(n-1-j)."""
     c = np.asarray(coeff)
+    c = c.astype(np.complex128 if c.dtype.kind == 'c' else np.float64)  # the VALUES: small integer dtypes would overflow in the square
     c = c / math.sqrt(float((np.abs(c)**2).sum()))
     n = c.shape[0]
     v = np.zeros(2**n, dtype=c.dtype)
